@@ -1,4 +1,5 @@
 import DSV.Proofs.Filter
+import DSV.Model.FilterParse
 /-!
 C12 — filters mean what SQL says, identically in every scan API.
 Property theorems only; helper lemmas live in `DSV/Proofs/Filter.lean`.
@@ -82,11 +83,93 @@ theorem apis_agree_batches (n : Nat) (es : List Expr) (files : List File) :
 theorem apis_agree_records (es : List Expr) (files : List File) :
     recordsApi es files = scanApi es files := apis_agree_batches 999 es files
 
-/-- Full-strength statement for the checksum-off path (parquet reader pushdown). -/
+theorem keepsAll_eq_all (es : List Expr) (r : Row) : keepsAll es r = es.all fun e => keeps (build e) r := by
+  unfold keepsAll buildAll
+  cases es with
+  | nil => rfl
+  | cons e rest => simp only [keeps_foldl, List.all_cons]
+
+theorem rgStatsV_range {xs : List V} {lo hi : Int} (h : rgStatsV xs = .range lo hi) :
+    ∀ a, V.val a ∈ xs → lo ≤ a ∧ a ≤ hi := by
+  unfold rgStatsV at h
+  split at h
+  · rename_i l u hl hu
+    simp only [Bounds.range.injEq] at h
+    obtain ⟨rfl, rfl⟩ := h
+    intro a ha
+    exact ⟨listMin_le hl a (mem_vals.mpr ha), le_listMax hu a (mem_vals.mpr ha)⟩
+  · cases h
+
+/-- Statistics-based row-group skipping is sound on NaN-free columns. -/
+theorem pushSkip_sound (xs : List V) (e : Expr) (hn : NoNan xs)
+    (hp : pushSkip1 (rgStatsV xs) e = true) : ∀ x ∈ xs, evalSqlV e x ≠ Tri.t := by
+  intro x hx
+  cases hb : rgStatsV xs with
+  | none => simp [pushSkip1, hb] at hp
+  | nanB => simp [pushSkip1, hb] at hp
+  | range lo hi =>
+    have hr := rgStatsV_range hb
+    rw [hb] at hp
+    cases x with
+    | nan => exact absurd hx hn
+    | null =>
+      unfold pushSkip1 at hp
+      unfold evalSqlV; cases hop : e.op <;> simp [Tri.ofBool, hop] at hp ⊢
+    | val a =>
+      obtain ⟨h1, h2⟩ := hr a hx
+      unfold evalSqlV
+      unfold pushSkip1 at hp
+      cases hop : e.op <;> simp only [hop] at hp ⊢ <;> try (simp at hp; done)
+      case notIn =>
+        simp only [Bool.and_eq_true, beq_iff_eq, List.any_eq_true] at hp
+        obtain ⟨hlh, s, hs, hsv⟩ := hp
+        have hal : a = lo := by omega
+        have : memSql (V.val a) (dropNull e.set) = true := by
+          unfold memSql
+          rw [List.any_eq_true]
+          exact ⟨s, hs, by subst hal; rw [hsv]; simp [eqSql]⟩
+        simp [Tri.ofBool, this]
+      all_goals
+        cases hl : e.lit <;> simp only [hl] at hp ⊢ <;> try (simp at hp; done)
+        all_goals
+          simp [Tri.ofBool, cmpNN] at hp ⊢
+          omega
+
+/-- **pushdown_agrees_partial** — on tables without NaN in the filtered columns statistics pushdown
+(row-group skipping) returns exactly what `scan` with verification returns. -/
+theorem pushdown_agrees_partial (es : List Expr) (files : List File)
+    (hs : ∀ e ∈ es, NoNanInSet e)
+    (hn : ∀ f ∈ files, ∀ e ∈ es, NoNan (f.map (· e.col))) :
+    pushdownApi es files = scanApi es files := by
+  unfold pushdownApi scanApi
+  congr 1
+  apply List.map_congr_left
+  intro f hf
+  split
+  · rename_i hany
+    simp only [List.any_eq_true] at hany
+    obtain ⟨e, he, hskip⟩ := hany
+    symm
+    rw [List.filter_eq_nil_iff]
+    intro r hr
+    rw [keepsAll_eq_all]
+    simp only [List.all_eq_true]
+    intro hall
+    have hk := hall e he
+    have hx : r e.col ∈ f.map (· e.col) := List.mem_map.mpr ⟨r, hr, rfl⟩
+    have hskip' : pushSkip1 (rgStatsV (f.map (· e.col))) e = true := hskip
+    have := pushSkip_sound (f.map (· e.col)) e (hn f hf e he) hskip' (r e.col) hx
+    exact this ((build_is_sql e r (hs e he)).mp hk)
+  · rfl
+
+/-- **apis_agree (verify_checksums=False)** — after fix c29e5f1 the unverified path is the same pipeline. -/
+theorem apis_agree_nochecksum (es : List Expr) (files : List File) :
+    nochecksumApi es files = scanApi es files := rfl
+
+/-- The rejected design (what the code did before c29e5f1): pushdown into the parquet reader. -/
 def PushdownAgrees : Prop := ∀ (es : List Expr) (files : List File), pushdownApi es files = scanApi es files
 
-/-- **pushdown_agrees_refuted** — `verify_checksums=False` delegates to the parquet reader's statistics
-pushdown, which ignores NaN: file `[1, NaN, 1]`, filter `x != 1` drops the NaN row that `scan` returns. -/
+/-- **pushdown_agrees_refuted** (regression witness) — statistics pushdown ignores NaN: file `[1, NaN, 1]`, filter `x != 1` drops the NaN row that `scan` returns. -/
 theorem pushdown_agrees_refuted : ¬ PushdownAgrees := by
   intro h
   have := h [{ col := 0, op := .ne, lit := .val 1, set := [] }]
@@ -96,3 +179,85 @@ theorem pushdown_agrees_refuted : ¬ PushdownAgrees := by
   decide
 
 end DSV.Filter
+
+namespace DSV.FilterParse
+open DSV.Filter
+
+/-- The specification table of operator spellings (what the documentation promises). -/
+def specOps : List (String × String) := [
+  ("!=", "NE"), ("<", "LT"), ("<=", "LE"), ("<>", "NE"), ("=", "EQ"), ("==", "EQ"), (">", "GT"), (">=", "GE"),
+  ("eq", "EQ"), ("ge", "GE"), ("gt", "GT"), ("in", "IN"), ("le", "LE"), ("lt", "LT"), ("ne", "NE"),
+  ("not in", "NOT_IN"), ("not_in", "NOT_IN"), ("notin", "NOT_IN")]
+
+def specSpecial : List (String × String) := [
+  ("between", "BETWEEN"), ("is_not_null", "IS_NOT_NULL"), ("is_null", "IS_NULL"),
+  ("isnotnull", "IS_NOT_NULL"), ("isnull", "IS_NULL"), ("notnull", "IS_NOT_NULL")]
+
+/-- **parse_table_correct** — the operator tables in the source (regenerated on every run) are exactly the
+specification tables: every spelling denotes the operator the specification gives it, and there is no other. -/
+theorem parse_table_correct :
+    DSV.Generated.opTable = specOps ∧ DSV.Generated.specialSpellings = specSpecial := by
+  constructor <;> decide
+
+/-- **parse_rejects (None)** — `{"c": None}` raises. -/
+theorem compile_none_raises (col : Nat) : compile col .none = none := rfl
+
+/-- **parse_rejects (operator not a string)**. -/
+theorem compile_nonstr_raises (col : Nat) (v : PyVal) :
+    compile col (.tuple2 .nonStr v) = none ∧ compile col (.tuple2 .unhashable v) = none := ⟨rfl, rfl⟩
+
+/-- **parse_rejects (unknown operator)** — a spelling outside both tables is never coerced to some operator. -/
+theorem compile_unknown_raises (col : Nat) (s : String) (v : PyVal)
+    (h1 : specSpecial.lookup s.toLower = none) (h2 : specOps.lookup s.toLower = none) :
+    compile col (.tuple2 (.str s) v) = none := by
+  unfold compile compileWith
+  rw [parse_table_correct.1, parse_table_correct.2]
+  simp [h1, h2]
+
+/-- **parse_rejects (wrong arity / non-iterable operand)** — comparison operators take a scalar, `in`/`not_in` a
+sequence, `between` a sequence of exactly two; anything else raises. -/
+theorem compile_shape (col : Nat) (s : String) (v : PyVal) (es : List Expr)
+    (h : compile col (.tuple2 (.str s) v) = some es) :
+    (∃ x, v = .scalar x ∧ ∃ op, isCmp op = true ∧ es = [mk col op x []]) ∨
+    (∃ xs, v = .seq xs ∧ ∃ op, (op = .isIn ∨ op = .notIn) ∧ es = [mk col op .null xs]) ∨
+    (∃ a b, v = .seq [a, b] ∧ es = [mk col .ge a [], mk col .le b []]) ∨
+    es = [mk col .isNull .null []] ∨ es = [mk col .isNotNull .null []] := by
+  unfold compile compileWith at h
+  simp only [] at h
+  split at h
+  · split at h
+    · rename_i a b
+      simp only [Option.some.injEq] at h
+      exact Or.inr (Or.inr (Or.inl ⟨a, b, rfl, h.symm⟩))
+    · cases h
+  · simp only [Option.some.injEq] at h; exact Or.inr (Or.inr (Or.inr (Or.inl h.symm)))
+  · simp only [Option.some.injEq] at h; exact Or.inr (Or.inr (Or.inr (Or.inr h.symm)))
+  · cases h
+  · split at h
+    · cases h
+    · rename_i op _
+      split at h
+      · rename_i hc
+        split at h
+        · rename_i x
+          simp only [Option.some.injEq] at h
+          exact Or.inl ⟨x, rfl, op, hc, h.symm⟩
+        · cases h
+      · split at h
+        · rename_i hin
+          split at h
+          · rename_i xs
+            simp only [Option.some.injEq] at h
+            refine Or.inr (Or.inl ⟨xs, rfl, op, ?_, h.symm⟩)
+            simpa using hin
+          · cases h
+        · cases h
+
+/-- Non-vacuity: well-formed conditions do compile. -/
+example : compile 0 (.tuple2 (.str "Not In") (.seq [.val 1, .null])) = some [mk 0 .notIn .null [.val 1, .null]] := by
+  decide +kernel
+example : compile 0 (.tuple2 (.str "between") (.seq [.val 1, .val 2])) = some [mk 0 .ge (.val 1) [], mk 0 .le (.val 2) []] := by
+  decide +kernel
+example : compile 0 (.tuple2 (.str "gte") (.scalar (.val 1))) = none := by decide +kernel
+
+end DSV.FilterParse
